@@ -177,9 +177,16 @@ def m_str(ctx, interp, v):
                 return ""
             if len(a) == 1:
                 return m_str(ctx, interp, a[0])
-        raise Unsupported("str() of interpreted instance")
-    if isinstance(v, (PyClass, PyFunc, PartialObj)):
-        raise Unsupported("str() of interpreted callable (address-dependent)")
+        cr, fr = v.pyclass.lookup("__repr__")
+        if isinstance(fr, _PF):
+            return interp.call(fr, [v], {})
+        ctx.note("world: the default str()/repr() of an object contains its memory address")
+        return SStr(z3.String(ctx.fresh_name("world:address")))
+    if isinstance(v, (PyFunc, PartialObj)):
+        ctx.note("world: str()/repr() of a function object contains a memory address")
+        return SStr(z3.String(ctx.fresh_name("world:address")))
+    if isinstance(v, PyClass):
+        return "<class '%s.%s'>" % (v.ns.get("__module__"), v.name)
     if not isinstance(v, Sym) and not contains_sym(v):
         if isinstance(v, (str, int, float, bool, type(None), list, tuple, dict, bytes, enum.Enum)) or \
                 _is_repo_data_object(v) or isinstance(v, BaseException):
@@ -860,6 +867,9 @@ def _native_table():
         _random_mod.getrandbits: world_value("random"), _random_mod.randrange: world_value("random"),
         _random_mod.uniform: world_value("random"),
         locale.getlocale: world_value("locale"), locale.getpreferredencoding: world_value("locale"),
+        locale.format_string: world_value("locale"), locale.str: world_value("locale"), locale.currency: world_value("locale"),
+        locale.localeconv: world_value("locale"), locale.setlocale: world_value("locale"),
+        os.getppid: world_value("pid"), os.getuid: world_value("pid"), os.times: world_value("time"),
         uuid.uuid4: world_value("uuid"), uuid.uuid1: world_value("uuid"),
         socket.gethostname: world_value("hostname"), getpass.getuser: world_value("env"),
         secrets.token_hex: world_value("uuid"), secrets.randbelow: world_value("random"),
@@ -943,7 +953,41 @@ def _is_repo_data_class(cls):
     return (getattr(cls, "__module__", "") or "").startswith("pyab_experiment.")
 
 
+class WorldMapping:
+    """os.environ and friends: every read is a process-local value"""
+
+    def __init__(self, kind):
+        self.kind = kind
+
+    def pysym_getattr(self, ctx, interp, name):
+        if name in ("get", "__getitem__", "setdefault", "pop"):
+            return _WorldCall(self.kind)
+        if name in ("keys", "values", "items", "copy"):
+            raise Unsupported("iteration over %s (process-dependent)" % self.kind)
+        raise SymRaise(AttributeError(name))
+
+    def pysym_getitem(self, ctx, idx):
+        ctx.note("world: %s is process dependent" % self.kind)
+        return SStr(z3.String(ctx.fresh_name("world:" + self.kind)))
+
+
+class _WorldCall:
+    def __init__(self, kind):
+        self.kind = kind
+
+    def pysym_call(self, ctx, interp, args, kwargs):
+        ctx.note("world: %s is process dependent" % self.kind)
+        return SStr(z3.String(ctx.fresh_name("world:" + self.kind)))
+
+
 def native_getattr(ctx, interp, obj, name):
+    import os as _os
+    import sys as _sys
+    if obj is _os and name == "environ":
+        return WorldMapping("env")
+    if obj is _sys and name in ("argv", "path", "flags", "executable"):
+        ctx.note("world: sys.%s is process dependent" % name)
+        return SStr(z3.String(ctx.fresh_name("world:sys")))
     if isinstance(obj, types.ModuleType):
         try:
             return getattr(obj, name)
